@@ -17,7 +17,7 @@ dispatches on (prefix, start) over all four combinations and the (Some, Some) ar
 iterator when start does not start with prefix; (5) history bookkeeping does not leak into the original
 columns: in store_modifications_history the reverse changes are computed from the block's own change
 set *before* cleanup_old_changes adds history removals to the transaction, and the per-key history is
-written under historical_duplicate_column_id(column). (6) RocksDb reverse prefix iteration seeks at the tight successor of the prefix: next_prefix increments by one, drops (or zeroes) the bytes it steps over, carries into the previous byte, returns None only when exhausted, and the inclusive seek skips a leading key outside the prefix (defect D2, fixed).
+written under historical_duplicate_column_id(column). (6) RocksDb reverse prefix iteration seeks at the tight successor of the prefix: next_prefix increments by one, drops (or zeroes) the bytes it steps over, carries into the previous byte, returns None only when exhausted, and the inclusive seek skips a leading key outside the prefix (defect D2, fixed). (7) RocksDb `set_prefix_same_as_start` is used only by the arm whose seek key is the prefix itself; in the in-memory iterator no prefix cut is applied to a reversed range that is unbounded above.
 """
 NOT_DECIDED = """Ordering and prefix-boundary behaviour of reverse_prefix_iter / next_prefix (observation
 D2) and of the BTreeMap reference iterator — byte-level semantics, explicitly not decided."""
